@@ -205,6 +205,34 @@ def close_handshake(tr, rr, sig):
     return None
 
 
+def close_result(tr, rr, sig):
+    """C08: once the server has answered CloseOk the client-initiated close is complete: nothing
+    that arrives afterwards (the server hanging up, stray frames) may turn it into an error."""
+    al = tr.al
+    sent_close = False
+    for k, (o, g) in enumerate(al):
+        t = o.split()
+        if t[0] == "send" and t[1] == "0" and t[2] == "close0" and g and g[0] == "send sent":
+            sent_close = True
+        if not sent_close or (rr.murky_at is not None and rr.murky_at <= k):
+            continue
+        if rr.state != "ClientClosed" and not any(l == "state ClientClosed" for l in []):
+            pass
+    if rr.state not in ("ClientClosed", "Dead") or not sent_close:
+        return None
+    # find the step that processed CloseOk and what it returned
+    closeok = amqp.connection_close_ok().hex()
+    for k, (o, g) in enumerate(al):
+        if (o.startswith("frame " + closeok) or (o == "ev stream r")) and any(l.startswith("res err") for l in g):
+            # was CloseOk among the frames of this very step, processed while steady?
+            fr = [x for x in refmon.received_frames(tr) if x[0] == k and x[1] == closeok]
+            if fr and (rr.murky_at is None or rr.murky_at >= k):
+                err = next(l for l in g if l.startswith("res err"))
+                if err.split()[2] in ("UnexpectedSocketClose", "IoErrorReadingSocket", "FrameUnexpected"):
+                    return ("the server answered CloseOk to the client's close, yet the I/O loop ended with %s (Connection::close would report it instead of Ok)" % err.split()[2], sig)
+    return None
+
+
 def server_chan_close(tr, rr, sig):
     """C09 extras: CloseOk written on n, later sends on the handle fail, the id is reusable."""
     al = tr.al
